@@ -1,4 +1,5 @@
 import IncanModel.Sem.Regroup
+import IncanModel.Props.C20
 /-
 C01 — compiled programs behave as the source says (core fragment; restructuring steps of the compiler).
 -/
@@ -282,3 +283,25 @@ example : Safe (.cons (.print (.arith .add (.arith .mul (.var "a") (.var "b")) (
 example : desugarElse (.elif (.var "a") .nil (.else_ .nil)) = .else_ (.cons (.ifS (.var "a") .nil (.else_ .nil)) .nil) := by rfl
 
 end Incan.Core
+
+/-! ### Classes: overriding (model and proofs in Sem/Derive, Props/C20 — restated here because it is program
+behaviour: which body a method call runs) -/
+namespace Incan.Derive
+
+/-- MAIN (dynamic dispatch along `extends`): calling `m` on an instance of `Ci` runs the body written in the most
+derived class of `C0 <- … <- Ci` that declares `m`. -/
+theorem method_call_runs_most_derived_body (levels : List (String × List String))
+    (hnd : (levels.map (·.1)).Nodup) (i : Nat) (hi : i < levels.length) (m : String) :
+    dispatch (inheritedMethods (chainDecls levels none) (chainDecls (α := List String) levels none).length (levels[i]).1) m
+      = specOwner (levels.take (i + 1)) m := override_wins levels hnd i hi m
+
+/-- an overriding method is never shadowed by the inherited one -/
+theorem redeclared_method_is_own (levels : List (String × List String))
+    (hnd : (levels.map (·.1)).Nodup) (i : Nat) (hi : i < levels.length) (m : String) (hm : m ∈ (levels[i]).2) :
+    dispatch (inheritedMethods (chainDecls levels none) (chainDecls (α := List String) levels none).length (levels[i]).1) m
+      = some (levels[i]).1 := by
+  rw [override_wins levels hnd i hi m, List.take_succ_eq_append_getElem hi, specOwner_snoc]
+  simp [hm]
+
+end Incan.Derive
+
